@@ -4,6 +4,7 @@ use crate::engine::{Ctx, Outcome};
 
 pub mod c01;
 pub mod c06;
+pub mod c09;
 pub mod c10;
 pub mod c14;
 pub mod c16;
@@ -22,6 +23,10 @@ pub fn lookup(id: &str) -> Option<Prop> {
         "C06" => Prop {
             check: c06::check,
             replay: c06::replay,
+        },
+        "C09" => Prop {
+            check: c09::check,
+            replay: c09::replay,
         },
         "C10" => Prop {
             check: c10::check,
